@@ -311,6 +311,14 @@ Definition adm_clone (c : cfg) (w : world) (v : nat) : Prop :=
     fixed_backend (vbk sv) \/
     (vlen sv <= usize_max /\
      c_sz c * grow_target {| vlen := 0; vcap := 0; vmem := []; vgen := 0; vbk := vbk sv |} (vlen sv) <= alloc_limit).
+(** the allocator can serve the request (and the prebuilt storage of the relocating backend) *)
+Definition adm_withcap (c : cfg) (bk : bkind) (n : N) : Prop :=
+  bk_wf bk /\ n <= usize_max /\
+  match bk with
+  | BReloc c0 => c_sz c * N.max n c0 <= alloc_limit
+  | _ => c_sz c * n <= alloc_limit
+  end.
+
 (** the result of a splice of [n] replacement values into the range fits, can be grown to, or is refused by the checks *)
 Definition adm_splice (c : cfg) (w : world) (vid : nat) (sb eb : bound) (n : N) : Prop :=
   forall vv, get_vec vid w = Some vv ->
@@ -323,6 +331,7 @@ Definition adm_splice (c : cfg) (w : world) (vid : nat) (sb eb : bound) (n : N) 
 Definition admissible (c : cfg) (w : world) (o : op) : Prop :=
   match o with
   | OSplice _ v sb eb _ _ _ n _ _ => adm_splice c w v sb eb n
+  | OWithCapacity _ bk n => adm_withcap c bk n
   | OPush _ v _ | OInsert _ v _ _ => adm_vec c w v
   | OPop _ _ k | ORemove _ _ _ k | OSwapRemove _ _ _ k =>
       match k with KPush d | KIns d _ => adm_vec c w d | _ => True end
